@@ -156,8 +156,24 @@ def scope(res, pid, rng, tier):
             r = sess.op("ipline %s pinned 0 %s" % (oid, cps(s)), lambda s=s, an=an: "ok " + cps(anonymize_ip_addr(an, s, False)),
                         {"family": fam, "line": s})
             rows.append((fam, s, r))
+    # the arithmetic reading of the IPv4 core language proved in Lean (`lang_core4_iff` / `isQuadB_iff`: four decimal parts
+    # <= 255, leading zeros allowed) against CPython's own reading of the core of the pattern, on every token-like piece
+    import re
+    from netconan import ip_anonymization as _ipa
+    core_re = re.compile(r"((0*{o}\.){{3}}0*{o})".format(o=_ipa._IPv4_OCTET_PATTERN))
+    pieces = set()
+    for s in S4:
+        for t in re.findall(r"[0-9.]+", s):
+            pieces.add(t)
+            pieces.add(t[:-1])
+            pieces.add("0" + t)
+    pieces |= {"0.0.0.0", "255.255.255.255", "256.1.1.1", "1.2.3", "1.2.3.4.5", "00000.1.2.3", "1.2.3.0255", "1.2.3.0256", "1..2.3", ".1.2.3", "1.2.3.", "",
+               "01.02.03.04", "1.2.3.4444", "25.5.2.55", "2555.1.1.1", "0.0.0.00000000000"}
+    for t in sorted(pieces):
+        sess.op("quad " + cps(t), lambda t=t: "ok %d" % (1 if core_re.fullmatch(t) else 0), {"piece": t})
+    res.count("core_language_pieces", len(pieces))
     dis = sess.finish()
-    res.evaluations += len(rows)
+    res.evaluations += len(rows) + len(pieces)
     res.traces += 2
     # property oracle: independent scanner + cache-free map (asked from the Lean spec in one batch)
     need = {4: set(), 6: set()}
